@@ -34,16 +34,9 @@ Print Assumptions C07_interface_types_in_vocabulary.
 Theorem C07_link_types_in_vocabulary : forall t, In t enum_link_types -> type_allowed KLink t = true.
 Proof. exact link_types_in_vocab. Qed.
 Print Assumptions C07_link_types_in_vocabulary.
-(* ... FULL STATEMENT for services (false of the current tree):
-       forall t, In t enum_service_types -> type_allowed KNS t = true *)
-Theorem C07_service_types_in_vocabulary_partial :
-  forall t, In t enum_service_types -> t <> sL2Multisite -> type_allowed KNS t = true.
-Proof. exact service_types_in_vocab_partial. Qed.
-Print Assumptions C07_service_types_in_vocabulary_partial.
-Theorem C07_service_vocabulary_refuted :
-  In sL2Multisite enum_service_types /\ WF empty_graph /\ ~ WF (fst (step false empty_graph w_vocab_op [S "g1x0"] [])).
-Proof. exact service_vocabulary_refuted. Qed.
-Print Assumptions C07_service_vocabulary_refuted.
+Theorem C07_service_types_in_vocabulary : forall t, In t enum_service_types -> type_allowed KNS t = true.
+Proof. exact service_types_in_vocab. Qed.
+Print Assumptions C07_service_types_in_vocabulary.
 (* the types the API chooses itself (catalogue components, facility / switch / peering constructs) *)
 Theorem C07_builtin_types_in_vocabulary : builtin_types_ok = true.
 Proof. exact builtin_types_in_vocab. Qed.
@@ -79,15 +72,15 @@ Print Assumptions C07_closed_removal_preserves.
 
 (* ---- the building calls ------------------------------------------------------------------------------------ *)
 (* FULL STATEMENT (false of the faithful model, see the ..._refuted theorems):
-     forall sub g o drawn hint, WF g -> WF (fst (step sub g o drawn hint))
+     forall sub fl g o drawn hint, WF g -> WF (fst (step sub fl g o drawn hint))
    PROVED for the calls listed in op_pre (Model/T7Steps.v): add_node, node.add_network_service,
    add_network_service without interfaces, add_link, remove_link, add_child_interface, rename, set_property,
-   unset_property -- whatever the outcome of the call (normal return or any exception, with the partial effects
+   unset_property -- for the library with or without the proposed repairs (any `flags`), whatever the outcome of the call (normal return or any exception, with the partial effects
    made before it).  NOT proved (covered by the wf_b evaluation on implementation snapshots only): add_component,
    add_storage, add_facility, add_switch, add_network_service with interfaces, port mirror, connect / disconnect,
    peer / unpeer, the removals other than remove_link. *)
 Theorem C07_step_preserves_partial :
-  forall sub g o drawn hint g' out, WF g -> op_pre g o = true -> step sub g o drawn hint = (g', out) -> WF g'.
+  forall sub fl g o drawn hint g' out, WF g -> op_pre g o = true -> step sub fl g o drawn hint = (g', out) -> WF g'.
 Proof. exact step_preserves_partial. Qed.
 Print Assumptions C07_step_preserves_partial.
 
@@ -122,25 +115,37 @@ Print Assumptions C07_new_owned_service_preserves.
 
 (* all histories of proved calls, by induction over the history, from any well-formed model *)
 Theorem C07_all_histories_partial :
-  forall sub h g, WF g -> pre_along sub g h = true -> WF (run_hist sub g h).
+  forall sub fl h g, WF g -> pre_along sub fl g h = true -> WF (run_hist sub fl g h).
 Proof. exact histories_partial. Qed.
 Print Assumptions C07_all_histories_partial.
 Theorem C07_empty_model_well_formed : WF empty_graph.
 Proof. exact WF_empty. Qed.
 Print Assumptions C07_empty_model_well_formed.
 
-(* the defects that make the full statement false *)
+(* the defects that make the full statement false of the library WITHOUT the proposed repairs (flags_off) *)
 Theorem C07_rename_refuted :
-  let g := run_hist false empty_graph w_rename_hist in WF g /\ ~ WF (fst (step false g w_rename_op [] [])).
+  let g := run_hist false flags_off empty_graph w_rename_hist in
+  WF g /\ ~ WF (fst (step false flags_off g w_rename_op [] [])).
 Proof. exact rename_refuted. Qed.
 Print Assumptions C07_rename_refuted.
-Theorem C07_add_facility_refuted : WF empty_graph /\ ~ WF (fst (step false empty_graph w_facility_op [] [])).
-Proof. exact add_facility_refuted. Qed.
-Print Assumptions C07_add_facility_refuted.
 Theorem C07_remove_link_refuted :
-  let g := run_hist false empty_graph w_link_hist in WF g /\ ~ WF (fst (step false g w_link_op [] [])).
+  let g := run_hist false flags_off empty_graph w_link_hist in
+  WF g /\ ~ WF (fst (step false flags_off g w_link_op [] [])).
 Proof. exact remove_link_refuted. Qed.
 Print Assumptions C07_remove_link_refuted.
+(* ... and with the proposed repairs (flags_on) the same two calls are refused and change nothing *)
+Theorem C07_witnesses_refused_when_repaired :
+  step false flags_on (run_hist false flags_on empty_graph w_rename_hist) w_rename_op [] []
+    = (run_hist false flags_on empty_graph w_rename_hist, Some ETopology) /\
+  step false flags_on (run_hist false flags_on empty_graph w_link_hist) w_link_op [] []
+    = (run_hist false flags_on empty_graph w_link_hist, Some ETopology).
+Proof. exact witnesses_refused_when_repaired. Qed.
+Print Assumptions C07_witnesses_refused_when_repaired.
+(* a repeated interface name in add_facility is refused and the half-built facility removed (fixes 18a115a, 2982a89) *)
+Theorem C07_add_facility_duplicate_refused :
+  forall fl, step false fl empty_graph w_facility_op [] [] = (empty_graph, Some ETopology).
+Proof. exact add_facility_duplicate_refused. Qed.
+Print Assumptions C07_add_facility_duplicate_refused.
 
 (* ---- the read-only views ----------------------------------------------------------------------------------- *)
 Theorem C07_view_nodes_exact : forall g, WF g -> view_nodes g = map nid (nodes_view g).
@@ -162,7 +167,7 @@ Theorem C07_view_services_exact_partial :
 Proof. exact view_services_exact_partial. Qed.
 Print Assumptions C07_view_services_exact_partial.
 Theorem C07_view_services_refuted :
-  let g := run_hist false empty_graph w_services_hist in WF g /\ length (view_services g) <> length (of_class KNS g).
+  let g := run_hist false flags_off empty_graph w_services_hist in WF g /\ length (view_services g) <> length (of_class KNS g).
 Proof. exact view_services_refuted. Qed.
 Print Assumptions C07_view_services_refuted.
 (* ViewOnlyDict(Mapping) defines read methods only *)
@@ -173,7 +178,7 @@ Print Assumptions C07_viewonly_read_methods.
 
 (* ---- non-vacuity ------------------------------------------------------------------------------------------- *)
 (* a model built by calls outside the proved set (component with interfaces, service with a connection) ... *)
-Definition ex_base : graph := run_hist false empty_graph
+Definition ex_base : graph := run_hist false flags_off empty_graph
   [(OAddNode (S "n1") None (S "VM"), [S "u1"], []);
    (OAddComponent (S "u1") (S "c1") None (S "SmartNIC") (S "ConnectX-6") None None, [S "u2"; S "u3"; S "u4"; S "u5"], []);
    (OAddComponent (S "u1") (S "c2") None (S "SharedNIC") (S "ConnectX-6") None None, [S "u6"; S "u7"; S "u8"], []);
@@ -191,12 +196,12 @@ Definition ex_hist : list hstep :=
    (ORemoveLink (S "l1"), [], []);
    (OAddNS (S "s2") None (S "L2STS") [], [S "v5"], [])].
 Example C07_histories_hypothesis_satisfiable :
-  wf_b ex_base = true /\ pre_along false ex_base ex_hist = true /\
-  length (gnodes (run_hist false ex_base ex_hist)) = 15 /\ wf_b (run_hist false ex_base ex_hist) = true.
+  wf_b ex_base = true /\ pre_along false flags_off ex_base ex_hist = true /\ pre_along false flags_on ex_base ex_hist = true /\
+  length (gnodes (run_hist false flags_on ex_base ex_hist)) = 15 /\ wf_b (run_hist false flags_on ex_base ex_hist) = true.
 Proof. vm_compute. repeat split. Qed.
 (* a closed removal set that is not trivial: the component c1 with its service, ports and sub-interface *)
 Example C07_closed_removal_satisfiable :
-  let g := run_hist false ex_base (firstn 3 ex_hist) in
+  let g := run_hist false flags_off ex_base (firstn 3 ex_hist) in
   let del := fun y => mem_str y [S "u2"; S "u3"; S "u4"; S "u5"; S "v3"] in
   closed_b g del = true /\ length (gnodes (remove_set g del)) = 9.
 Proof. vm_compute. split; reflexivity. Qed.
